@@ -437,7 +437,7 @@ def run_check(run, tier, seed, shard):
         elif shape.startswith('reversed'):
             bo = list(reversed(bids))
         elif shape.startswith('local_shuffle'):
-            bo = netgen.local_shuffle(bids, rnd2, 40 if gen == 'chain' else size[1])
+            bo = netgen.local_shuffle(bids, rnd2, 40 if gen == 'chain' else 2 * size[1] - 1)
         else:
             bo = list(bids)
             rnd2.shuffle(bo)
